@@ -97,7 +97,7 @@ func FixedLimitCases() []FixedCase {
 						for i := len(rows) - 1; i >= 0; i-- {
 							arrivals[1] = append(arrivals[1], rows[i])
 						}
-						arrivals[2] = append(append([]int64{rows[len(rows)-1]}, rows[:len(rows)-1]...)) // the larger row first
+						arrivals[2] = append([]int64{rows[len(rows)-1]}, rows[:len(rows)-1]...) // the larger row first
 						for _, arr := range arrivals {
 							var script []lib.Event
 							for _, v := range arr {
